@@ -126,12 +126,19 @@ def run_hist(init, hist, check_from=0):
                     err = [] if err else ['(no error line for a bad command)']
                 if checked and (err or any(outparse.classify(x)[0] == 'message' for x in out)):
                     V.append(Violation('live.command_output', case, {'step': n, 'command': e[1], 'out': out, 'err': err}))
+                # merging is on the reference state, so the implementation's observable state must equal it after
+                # every command: which connection is marked as selected in the listing
+                lst, _ = s.cmd('connection')
+                marked = [l.split()[1] for l in lst if l.lstrip().startswith('=>')]
                 if e[1] in CMD_REF:
                     ref.step(CMD_REF[e[1]])
                 elif e[1] == 'connection all':
                     selection = None
                 elif e[1] in ('connection A', 'connection B'):
                     selection = e[1].split()[-1]
+                if checked and marked != ([selection] if selection else []):
+                    V.append(Violation('live.selection_state', case, {'step': n, 'command': e[1], 'expected_selected': selection,
+                                                                      'listing_marks': marked}))
         # recording is independent of filter and selection
         f_out, _ = s.cmd('filter')
         s.cmd('connection all')
